@@ -332,18 +332,22 @@ def _prepare(op, model, scratch):
     raise ValueError(name)
 
 
-def _ops_for(sub, model, rng, tier):
+def _ops_for(sub, model, rng, tier, slow_ok=False):
     """catalogue of operations applicable to the subject"""
     nd = model.n_dim
     if sub["kind"] == "transformed":
         ops = ["pdf_arr", "pdf_list", "sample_none", "sample_int", "ecdf", "cond_sample", "cond_cdf", "cond_icdf", "plot_iso", "fit_another", "sample_gen", "save"]
         if tier != "quick":
-            ops += ["cdf1", "iform"]
+            ops += ["iform"]
+            if slow_ok:
+                ops += ["cdf1"]
         return ops
     ops = ["pdf_arr", "pdf_list", "pdf_1d", "marginal_icdf", "cond_cdf", "cond_icdf", "sample_int", "sample_gen", "sample_none", "dist_eval",
            "iform", "isorm", "hdc", "plot_dep", "plot_mq", "save", "fit_another", "marginal_pdf", "marginal_cdf"]
     if nd == 2:
-        ops += ["ds", "and", "or", "design", "plot_contour", "plot_iso", "cdf1"]
+        ops += ["ds", "and", "or", "design", "plot_contour", "plot_iso"]
+        if slow_ok:  # two-fold numerical integration: seconds per call
+            ops += ["cdf1"]
     if sub["kind"] == "fitted":
         ops += ["plot_hist"]
     return ops
@@ -584,9 +588,14 @@ def _scenarios(rng, tier):
     for ts in T_SPECS:
         for _ in range(n_hist):
             subjects.append({"kind": "transformed", "spec": ts})
+    n_slow = 0
     for sub in subjects:
         model = _build_subject(sub) if sub["kind"] != "fitted" else None
-        cat = _ops_for(sub, model if model is not None else _Dummy(2), rng, tier)
+        # numerical double integrals (cdf, marginal_cdf of a conditional dimension) cost seconds per call: only for a few subjects
+        slow_ok = (sub["kind"] == "ghm" and sub["spec"]["struct"] in ("dnvgl_hs_tz", "indep2") and n_slow < (1 if tier == "quick" else 4)) \
+            or (sub["kind"] == "transformed" and tier != "quick" and n_slow < 6)
+        n_slow += int(slow_ok)
+        cat = _ops_for(sub, model if model is not None else _Dummy(2), rng, tier, slow_ok)
         # every catalogue entry appears in some history of the subject: deal the shuffled catalogue into histories of <= 6
         perm = [cat[i] for i in rng.permutation(len(cat))]
         nd = 2 if model is None else model.n_dim
@@ -598,9 +607,9 @@ def _scenarios(rng, tier):
                 if nm in ("marginal_pdf", "marginal_cdf"):
                     # numerical integration of conditional dimensions is slow: those only in 2-D
                     cond = [None] * nd if model is None else (model.conditional_on if sub["kind"] != "transformed" else [None, 0])
-                    dims = [i for i in range(nd) if cond[i] is None or nd == 2]
+                    dims = [i for i in range(nd) if cond[i] is None or (nd == 2 and (nm == "marginal_pdf" or slow_ok))]
                     if sub["kind"] == "fitted":
-                        dims = [0, 1]
+                        dims = [0, 1] if nm == "marginal_pdf" else [0]
                     op["dim"] = int(dims[int(rng.integers(0, len(dims)))])
                 elif nm == "marginal_icdf":
                     op["dim"] = int(rng.integers(0, nd))
